@@ -17,8 +17,16 @@ var spellings = map[string][]string{
 	"^": {"^", "{", "}", "\x01"},
 }
 
+// KeywordSpellings are used for the letter class in the keyword variants (v >= 100): a whole word per letter,
+// among them every word that starts a compound keyword (the tokenizer looks ahead after those).
+var KeywordSpellings = []string{"GROUP", "ORDER", "LEFT", "RIGHT", "INNER", "OUTER", "CROSS", "NATURAL", "FULL", "GROUPING",
+	"select", "NOT", "Is", "NULLS", "WITH", "union", "INTERVAL", "CASE", "BETWEEN", "primary", "FOR"}
+
 // Spell returns the concrete spelling of a class in a variant.
 func Spell(class string, v int) string {
+	if v >= 100 && class == "L" {
+		return KeywordSpellings[(v-100)%len(KeywordSpellings)]
+	}
 	if l, ok := spellings[class]; ok {
 		// vary classes independently
 		h := v
@@ -100,8 +108,9 @@ func (t Text) Value(items []Item, quoted bool) string {
 		case "c":
 			s := t.S[t.Off[it.I-1]:t.Off[it.I]]
 			if quoted {
-				r, _ := utf8.DecodeRuneInString(s)
-				b.WriteRune(normalizeQuote(r))
+				for _, r := range s { // a class may be spelled by several characters (keyword variants)
+					b.WriteRune(normalizeQuote(r))
+				}
 			} else {
 				b.WriteString(s)
 			}
